@@ -93,11 +93,11 @@ def run(ctx):
     for cx, e in shad:
         cases.append((cx, e, None, None))
     depth = ctx.pick(4, 6)
-    for i in range(ctx.pick(4000, 120000)):
+    for i in range(ctx.pick(4000, 60000)):
         cx, e = gen.case(ctx.rng.choice([2, 3, depth, depth]))
         cases.append((cx, e, None, None))
     reqs = [{'ctx': G.feel(('ctx', cx)) if cx else '', 'e': G.feel(e), 'scope': True} for cx, e, _, _ in cases]
-    impl = ctx.run_impl('feel', reqs, shards=16)
+    impl = ctx.run_impl('feel', reqs, shards=16, timeout=2400)
     model = ctx.run_model(HEADER, ['case [%s] %s' % ('; '.join('(%d%%N, %s)' % (n, G.coq(x)) for n, x in cx), G.coq(e)) for cx, e, _, _ in cases], shard_size=300)
     matrix, poisoned, nulls, errs = {}, 0, 0, 0
     for (cx, e, key, want), ri, rm, rq in zip(cases, impl, model, reqs):
